@@ -129,7 +129,7 @@ class Bits:
   def __getitem__( self, idx ):
 
     if isinstance( idx, slice ):
-      if idx.step:
+      if idx.step is not None:
         raise IndexError( "Index cannot contain step" )
       try:
         start = 0 if idx.start is None else int(idx.start)
@@ -153,7 +153,7 @@ class Bits:
     sv = int(self._uint)
 
     if isinstance( idx, slice ):
-      if idx.step:
+      if idx.step is not None:
         raise IndexError( "Index cannot contain step" )
       try:
         start = 0 if idx.start is None else int(idx.start)
